@@ -70,23 +70,13 @@ func serveLoopFns(c *Ctx) (stream []*ssa.Function, packet []*ssa.Function) {
 	return
 }
 
-// datagramFn: the closure (or function) that calls natmap.Get and a natconn WriteTo.
+// datagramFn: the per-datagram function (root of the datagram region), found by role.
 func datagramFn(c *Ctx) *ssa.Function {
-	for _, f := range c.P.FnsIn("service") {
-		get, wt := false, false
-		for _, cl := range eng.Calls(f) {
-			switch eng.CalleeName(cl.Common()) {
-			case "(*service.natmap).Get":
-				get = true
-			case "(*service.natconn).WriteTo":
-				wt = true
-			}
-		}
-		if get && wt {
-			return f
-		}
+	a := findUDP(&Ctx{P: c.P, Prop: c.Prop}, "x")
+	if a == nil {
+		return nil
 	}
-	return nil
+	return a.dg
 }
 
 // C18.RECOVER
